@@ -1,35 +1,71 @@
-(* C13 (3): Fourier1 per-direction factor f1s n enclosed by interval arithmetic, n in [5, 9, 17, 32]
+(* C13 (3): Fourier1 per-direction factor f1s n enclosed by interval arithmetic on its closed form, n in [1, 16, 17, 32, 33, 48, 49, 64]
    (file generated once by a script, split for parallel compilation; independent of /repo). *)
-From Coq Require Import ZArith List Reals Lra.
+From Coq Require Import ZArith List Lia Reals Lra.
 From Interval Require Import Tactic.
 From Flocq Require Import Raux.
-From P Require Import C13_gen C13_model C13_proofs_weights.
+From P Require Import C13_gen C13_model C13_proofs_weights C13_proofs_f1c.
 Open Scope R_scope.
 
-Lemma f1s_bound_5 : 1 - / IZR 5 <= f1s 5 <= 1.
+Lemma f1s_bound_1 : 1 - / IZR 1 <= f1s 1 <= 1.
 Proof.
-  assert (H : Rabs (f1s 5 - (1 - / IZR 5 / 2)) <= / IZR 5 / 2).
-  { unfold f1s, fourier1_dir, sumR. ev. interval. }
+  rewrite f1s_closed_form by (clear; lia).
+  assert (H : Rabs (f1s_closed 1 - (1 - / IZR 1 / 2)) <= / IZR 1 / 2).
+  { unfold f1s_closed, f1_term, sumR. ev. interval. }
   apply Rabs_le_inv in H. lra.
 Qed.
 
-Lemma f1s_bound_9 : 1 - / IZR 9 <= f1s 9 <= 1.
+Lemma f1s_bound_16 : 1 - / IZR 16 <= f1s 16 <= 1.
 Proof.
-  assert (H : Rabs (f1s 9 - (1 - / IZR 9 / 2)) <= / IZR 9 / 2).
-  { unfold f1s, fourier1_dir, sumR. ev. interval. }
+  rewrite f1s_closed_form by (clear; lia).
+  assert (H : Rabs (f1s_closed 16 - (1 - / IZR 16 / 2)) <= / IZR 16 / 2).
+  { unfold f1s_closed, f1_term, sumR. ev. interval. }
   apply Rabs_le_inv in H. lra.
 Qed.
 
 Lemma f1s_bound_17 : 1 - / IZR 17 <= f1s 17 <= 1.
 Proof.
-  assert (H : Rabs (f1s 17 - (1 - / IZR 17 / 2)) <= / IZR 17 / 2).
-  { unfold f1s, fourier1_dir, sumR. ev. interval. }
+  rewrite f1s_closed_form by (clear; lia).
+  assert (H : Rabs (f1s_closed 17 - (1 - / IZR 17 / 2)) <= / IZR 17 / 2).
+  { unfold f1s_closed, f1_term, sumR. ev. interval. }
   apply Rabs_le_inv in H. lra.
 Qed.
 
 Lemma f1s_bound_32 : 1 - / IZR 32 <= f1s 32 <= 1.
 Proof.
-  assert (H : Rabs (f1s 32 - (1 - / IZR 32 / 2)) <= / IZR 32 / 2).
-  { unfold f1s, fourier1_dir, sumR. ev. interval. }
+  rewrite f1s_closed_form by (clear; lia).
+  assert (H : Rabs (f1s_closed 32 - (1 - / IZR 32 / 2)) <= / IZR 32 / 2).
+  { unfold f1s_closed, f1_term, sumR. ev. interval. }
+  apply Rabs_le_inv in H. lra.
+Qed.
+
+Lemma f1s_bound_33 : 1 - / IZR 33 <= f1s 33 <= 1.
+Proof.
+  rewrite f1s_closed_form by (clear; lia).
+  assert (H : Rabs (f1s_closed 33 - (1 - / IZR 33 / 2)) <= / IZR 33 / 2).
+  { unfold f1s_closed, f1_term, sumR. ev. interval. }
+  apply Rabs_le_inv in H. lra.
+Qed.
+
+Lemma f1s_bound_48 : 1 - / IZR 48 <= f1s 48 <= 1.
+Proof.
+  rewrite f1s_closed_form by (clear; lia).
+  assert (H : Rabs (f1s_closed 48 - (1 - / IZR 48 / 2)) <= / IZR 48 / 2).
+  { unfold f1s_closed, f1_term, sumR. ev. interval. }
+  apply Rabs_le_inv in H. lra.
+Qed.
+
+Lemma f1s_bound_49 : 1 - / IZR 49 <= f1s 49 <= 1.
+Proof.
+  rewrite f1s_closed_form by (clear; lia).
+  assert (H : Rabs (f1s_closed 49 - (1 - / IZR 49 / 2)) <= / IZR 49 / 2).
+  { unfold f1s_closed, f1_term, sumR. ev. interval. }
+  apply Rabs_le_inv in H. lra.
+Qed.
+
+Lemma f1s_bound_64 : 1 - / IZR 64 <= f1s 64 <= 1.
+Proof.
+  rewrite f1s_closed_form by (clear; lia).
+  assert (H : Rabs (f1s_closed 64 - (1 - / IZR 64 / 2)) <= / IZR 64 / 2).
+  { unfold f1s_closed, f1_term, sumR. ev. interval. }
   apply Rabs_le_inv in H. lra.
 Qed.
